@@ -38,6 +38,7 @@ def dispatch (op : String) : Option (List String → String) :=
   | "c07r" => some c07rOp
   | "c08" => some c08Op
   | "c09" => some c09Op
+  | "c09x" => some c09xOp
   | "c19" => some c19Op
   | "c20" => some c20Op
   | "sink" => some (sinkOp baseFilters)
